@@ -300,6 +300,8 @@ impl RuntimeData {
         self.global_vars.clear();
         self.call_stack.clear();
         self.open_upvalues = std::ptr::null_mut();
+        // a cleared runtime collects like a fresh one
+        self.memory.reset_threshold();
     }
 
     fn clear_objects(&mut self) {
@@ -316,6 +318,7 @@ impl RuntimeData {
                 .limit
                 .store(capacity, std::sync::atomic::Ordering::Relaxed);
         }
+        self.memory.reset_threshold();
     }
 
     /// Types implementing Drop are not supported, thus the `Copy` bound
